@@ -122,6 +122,14 @@ func (processor *packetProcessor) publishHandler(ctx context.Context, sender str
 	}
 }
 
+// inboundFlow is the key under which the QoS 2 handshake of a message RECEIVED from the session is tracked.
+// The client numbers the packets it sends, the broker those it delivers: an identifier in use in one direction
+// says nothing about the other, so the two directions must not share one key (a delivery whose identifier
+// happened to equal that of a publish the client had not released yet was refused as a duplicate and dropped).
+func inboundFlow(session *sessions.Session) string {
+	return session.ID() + "/received"
+}
+
 func (processor *packetProcessor) Process(ctx context.Context, session *sessions.Session, c io.Writer, pkt packet.Packet) error {
 	ctx, cancel := context.WithTimeout(ctx, 800*time.Millisecond)
 	defer cancel()
@@ -149,7 +157,7 @@ func (processor *packetProcessor) Process(ctx context.Context, session *sessions
 				Header:    &packet.Header{},
 				MessageId: p.MessageId,
 			}
-			err := processor.inflights.Insert(session.ID(), pubrec, time.Now().Add(3*time.Second), func(expired bool, stored, received packet.Packet) {
+			err := processor.inflights.Insert(inboundFlow(session), pubrec, time.Now().Add(3*time.Second), func(expired bool, stored, received packet.Packet) {
 				if expired {
 					L(ctx).Warn("qos2 flow timed out waiting for PUBREL")
 					return
@@ -247,7 +255,7 @@ func (processor *packetProcessor) Process(ctx context.Context, session *sessions
 			L(ctx).Error("failed to ack pubrec", zap.Int32("message_id", p.MessageId), zap.Error(err))
 		}
 	case *packet.PubRel:
-		err := processor.inflights.Ack(session.ID(), p)
+		err := processor.inflights.Ack(inboundFlow(session), p)
 		if err != nil {
 			L(ctx).Error("failed to ack pubrel", zap.Int32("message_id", p.MessageId), zap.Error(err))
 		}
